@@ -317,3 +317,114 @@ def inline_helpers(fj, helper_table, max_rounds=6):
         if seq > 24:
             break
     return fj, done
+
+
+def lower_const_conditionals(fj):
+    """`x = c ? A : B` and `return c ? A : B` with constant arms (error codes, numbers) are rewritten, in the facts, to what clang's
+    CFG already says: the arm blocks get `x = A` and `x = B`, the joined assignment disappears.  Rules that look for "the place
+    where ECONF_X is assigned" and for the path condition of that place then treat the conditional expression like an if/else."""
+    nodes = fj.get("nodes") or []
+    cfg = fj.get("cfg") or {}
+    blocks = cfg.get("blocks") or []
+    if not nodes or not blocks:
+        return 0
+    parent = {}
+    for n in nodes:
+        if n:
+            for c in n.get("ch", []):
+                if c is not None and c >= 0:
+                    parent[c] = n["id"]
+
+    def strip(i):
+        while i is not None and i >= 0 and nodes[i] and nodes[i]["k"] in ("ParenExpr", "ImplicitCastExpr", "ConstantExpr") and nodes[i].get("ch"):
+            i = nodes[i]["ch"][0]
+        return i
+
+    def is_const(i):
+        i = strip(i)
+        n = nodes[i] if i is not None and i >= 0 else None
+        return n is not None and ((n["k"] == "DeclRefExpr" and n.get("dk") == "enum") or n["k"] == "IntegerLiteral")
+    done = 0
+    seq = 0
+    for co in list(nodes):
+        if not co or co["k"] != "ConditionalOperator" or "then" not in co or "else" not in co:
+            continue
+        if not (is_const(co["then"]) and is_const(co["else"])):
+            continue
+        # the statement the value goes to
+        up = parent.get(co["id"])
+        while up is not None and nodes[up]["k"] in ("ParenExpr", "ImplicitCastExpr", "ConstantExpr", "CStyleCastExpr"):
+            up = parent.get(up)
+        if up is None:
+            continue
+        un = nodes[up]
+        target = None
+        if un["k"] == "BinaryOperator" and un.get("op") == "=" and strip(un["ch"][1]) == co["id"] and nodes[strip(un["ch"][0])]["k"] == "DeclRefExpr":
+            target = dict(nodes[strip(un["ch"][0])])
+            holder = un
+        elif un["k"] == "ReturnStmt":
+            seq += 1
+            target = {"k": "DeclRefExpr", "name": "$cv%d" % seq, "dk": "local", "did": 970000 + seq, "ch": [], "t": co.get("t"), "ct": co.get("ct"),
+                      "lv": True, "line": co.get("line"), "col": co.get("col"), "synthetic": "cond-value"}
+            holder = None
+        else:
+            continue
+        # the arm blocks: the blocks whose element lists end with the arm expression
+        arm_blocks = {}
+        for b in blocks:
+            for which in ("then", "else"):
+                if co[which] in b.get("elems", []) or strip(co[which]) in b.get("elems", []):
+                    arm_blocks[which] = b
+        if len(arm_blocks) != 2 or arm_blocks["then"] is arm_blocks["else"]:
+            continue
+        new_asg = []
+        for which in ("then", "else"):
+            lhs = dict(target)
+            lhs["id"] = len(nodes)
+            lhs["ch"] = []
+            nodes.append(lhs)
+            asg = {"id": len(nodes), "k": "BinaryOperator", "op": "=", "ch": [lhs["id"], co[which]], "t": co.get("t"), "ct": co.get("ct"), "lv": False,
+                   "line": nodes[strip(co[which])].get("line", co.get("line")), "col": nodes[strip(co[which])].get("col", co.get("col")),
+                   "synthetic": "cond-arm"}
+            for k2 in ("inlined_from",):
+                if k2 in co:
+                    asg[k2] = co[k2]
+                    lhs[k2] = co[k2]
+            nodes.append(asg)
+            arm_blocks[which]["elems"].append(lhs["id"])
+            arm_blocks[which]["elems"].append(asg["id"])
+            new_asg.append(asg["id"])
+        if holder is not None:
+            # x = (c ? A : B)   ==>   { x = A; x = B; }   (each in its arm block)
+            old_lhs = holder["ch"][0]
+            holder["k"] = "CompoundStmt"
+            holder["synthetic_of"] = "cond-assign"
+            holder.pop("op", None)
+            holder["ch"] = list(new_asg)
+            dead = [co["id"], old_lhs]
+        else:
+            # return (c ? A : B)   ==>   return $cv  with $cv assigned in the arms
+            ref = dict(target)
+            ref["id"] = len(nodes)
+            ref["lv"] = False
+            nodes.append(ref)
+            grp = {"id": len(nodes), "k": "CompoundStmt", "synthetic_of": "cond-return", "ch": list(new_asg), "line": co.get("line"), "col": co.get("col")}
+            nodes.append(grp)
+            un["ch"] = [ref["id"]]
+            # keep the arm assignments reachable by tree walks: hang the group below the return's parent next to it
+            pu = parent.get(un["id"])
+            if pu is not None and "ch" in nodes[pu]:
+                k9 = nodes[pu]["ch"].index(un["id"])
+                nodes[pu]["ch"].insert(k9, grp["id"])
+                if nodes[pu]["k"] != "CompoundStmt":
+                    # a single-statement body: wrap
+                    pass
+            dead = [co["id"]]
+            for b in blocks:
+                if un["id"] in b.get("elems", []):
+                    b["elems"].insert(b["elems"].index(un["id"]), ref["id"])
+        for d in dead:
+            dn = nodes[d]
+            nodes[d] = {"id": d, "k": "NullStmt", "ch": [], "line": dn.get("line", 0), "col": dn.get("col", 0)}
+        done += 1
+    return done
